@@ -129,7 +129,13 @@ def handle_linear(ctx, db, rid_='C04.handle-linear'):
                 kind = 'query'
             elif e.k == 'call' and norm(e.get('field') or '') == H and c == 'std::coroutine_handle::operator coroutine_handle' and re.search(r'operator(==|!=)', e.get('use') or ''):
                 kind = 'null comparison'
-            elif e.k == 'call' and norm(e.get('field') or '') == H and c == 'std::coroutine_handle::destroy' and f['nname'] == 'cocls::async::~async':
+            elif e.k == 'call' and norm(e.get('field') or '') == H and c == 'std::coroutine_handle::operator=' and ((e.get('args') or [{}])[0].get('const') == 0 or ((e.get('args') or [{}])[0].get('path') or '') in NULLS):
+                kind = 'reset to null'
+            elif e.k == 'construct' and c == 'std::coroutine_handle::coroutine_handle' and f['nname'] in ('cocls::async::async', 'cocls::async::operator=') and \
+                    any(x.k == 'call' and norm(x.get('callee') or '') == 'std::coroutine_handle::operator=' and x.get('recv') in [a.get('path') for a in e.get('args', [])] and
+                        ((x.get('args') or [{}])[0].get('const') == 0 or ((x.get('args') or [{}])[0].get('path') or '') in NULLS) for x in f.events()):
+                kind = 'move: copied into the new owner, the source is reset to null in the same function (an unrolled exchange)'
+            elif e.k == 'call' and norm(e.get('field') or '') == H and c == 'std::coroutine_handle::destroy' and (f['nname'] == 'cocls::async::~async' or who_ok(db, f, {'cocls::async::~async'})):
                 kind = 'destroy in destructor'
             elif e.k == 'read' and False:
                 kind = None
@@ -279,15 +285,17 @@ def refused_start_empty(ctx, db, rid_='C04.refused-start-empty'):
             hp = 'call(cocls::async::start_promise)'
             names = {hp}
             tested = None
+            uw = lambda p_: re.sub(r'^(?:(?:ctor|move|forward)\()+|\)+$', '', p_ or '') + (')' if re.sub(r'^(?:(?:ctor|move|forward)\()+|\)+$', '', p_ or '').startswith('call(') else '')
             for i, it in enumerate(tr[si:], si):
-                if it.k == 'decl' and (it.get('init') or '') in names and it.get('depth', 0) == 0:
+                if it.k == 'decl' and uw(it.get('init') or '') in names:
                     names.add(it.get('var'))
-                if it.k == 'branch' and it.get('depth', 0) == 0 and tested is None:
+                if it.k == 'branch' and tested is None:
                     nn = null_test(tr, i)
-                    if nn and nn[0] in names:
+                    if nn and uw(nn[0]) in names:
                         tested = nn[1]
-            cons = [c for c in calls(tr) if c.k == 'construct' and 'suspend_point' in (c.get('type') or '') and c.get('depth', 0) == 0 and not c.get('copy_or_move')]
-            withh = [c for c in cons if any(re.sub(r'^(ctor|move|forward)\((.*)\)$', r'\2', a.get('path') or '') in names for a in c.get('args', []))]
+            # (the suspend point may be built by a small helper of the class that is handed the handle: start_result(start_promise(p)))
+            cons = [c for c in calls(tr) if c.k == 'construct' and 'suspend_point' in (c.get('type') or '') and not c.get('copy_or_move')]
+            withh = [c for c in cons if any(uw(a.get('path') or '') in names for a in c.get('args', []))]
             if withh:
                 nyes += 1
                 if tested is not True:
